@@ -2,6 +2,7 @@ package c04
 
 import (
 	"fmt"
+	"math"
 
 	"github.com/unixpickle/model3d/model3d"
 	"github.com/unixpickle/model3d/toolbox3d"
@@ -40,6 +41,22 @@ type rsOp struct {
 type rsCase struct {
 	Coords [3][]float64 `json:"coords"`
 	Ops    []rsOp       `json:"ops"`
+	// UnitLog2: the coordinate table is in units of 2^UnitLog2 (an exact rescaling; 2^-40 is about 1e-12)
+	UnitLog2 int `json:"unit_log2,omitempty"`
+}
+
+func (c *rsCase) rescale(o *kit.Obs) {
+	if c.UnitLog2 == 0 {
+		return
+	}
+	for a := range c.Coords {
+		t := make([]float64, len(c.Coords[a]))
+		for i, x := range c.Coords[a] {
+			t[i] = math.Ldexp(x, c.UnitLog2)
+		}
+		c.Coords[a] = t
+	}
+	o.Label("rescaled")
 }
 
 const (
@@ -100,6 +117,9 @@ func genRS(t *rapid.T) rsCase {
 			}
 			c.Ops = append(c.Ops, op)
 		}
+	}
+	if rapid.IntRange(0, 2).Draw(t, "rescaled") == 0 {
+		c.UnitLog2 = rapid.SampledFrom([]int{-45, -40, -33, -30, -20, 10, 30}).Draw(t, "unit_log2")
 	}
 	return c
 }
@@ -475,6 +495,7 @@ func rsBuild(c *rsCase, n [3]int, ops []rsOp, top bool, st *rsStats, kinds map[s
 }
 
 func checkRS(c rsCase, o *kit.Obs) error {
+	c.rescale(o)
 	var n [3]int
 	for a := 0; a < 3; a++ {
 		n[a] = len(c.Coords[a]) - 1
@@ -536,6 +557,7 @@ func genRSEmpty(t *rapid.T) rsCase {
 }
 
 func checkRSEmpty(c rsCase, o *kit.Obs) error {
+	c.rescale(o)
 	var n [3]int
 	for a := 0; a < 3; a++ {
 		n[a] = len(c.Coords[a]) - 1
